@@ -19,22 +19,22 @@ const modPath = "github.com/omec-project/upf-epc"
 
 // World is the type-checked, SSA-lowered view of /repo's current working tree.
 type World struct {
-	Repo    string
-	Fset    *token.FileSet
-	Pkgs    []*packages.Package
-	Prog    *ssa.Program
-	SSAPkgs map[string]*ssa.Package // by import path
-	Funcs   []*ssa.Function         // every source function of the repo packages, anonymous ones included
-	byName  map[string]*ssa.Function
-	Renamed []string // functions recognised under a new name (normalize.go)
-	acqMemo map[*ssa.Function]map[*types.Var]string
-	cg      *CallGraph
-	modsets map[*ssa.Function]*modSet
-	locks   *lockAnalysis
-	Inlined []string // calls of new helpers expanded by normalize()
+	Repo         string
+	Fset         *token.FileSet
+	Pkgs         []*packages.Package
+	Prog         *ssa.Program
+	SSAPkgs      map[string]*ssa.Package // by import path
+	Funcs        []*ssa.Function         // every source function of the repo packages, anonymous ones included
+	byName       map[string]*ssa.Function
+	Renamed      []string // functions recognised under a new name (normalize.go)
+	acqMemo      map[*ssa.Function]map[*types.Var]string
+	cg           *CallGraph
+	modsets      map[*ssa.Function]*modSet
+	locks        *lockAnalysis
+	Inlined      []string                          // calls of new helpers expanded by normalize()
 	InlinedFuncs map[*ssa.Function][]*ssa.Function // caller → new helpers expanded into it (the helpers themselves stay analysable as units)
-	SplitReturns int // functions whose merged return was written out again
-	Adopted []string // new go/defer/function-value targets made anonymous functions of their only user
+	SplitReturns int                               // functions whose merged return was written out again
+	Adopted      []string                          // new go/defer/function-value targets made anonymous functions of their only user
 }
 
 // brokenf ends the run with exit 2: the checker could not decide. It never prints a
@@ -74,6 +74,9 @@ func loadWorld(repo string, prop string) *World {
 		Dir:  abs,
 		Fset: fset,
 		Env:  cleanEnv(),
+		// go list -export compiles the listed packages; with -trimpath the cache key of a package does not
+		// contain its directory, so scratch copies of the repository share cache entries with each other
+		BuildFlags: []string{"-trimpath"},
 	}
 	pkgs, err := packages.Load(cfg, "./...")
 	if err != nil {
@@ -111,7 +114,7 @@ func loadWorld(repo string, prop string) *World {
 		if ren, notes := detectRenames(pkgs); len(ren) > 0 {
 			if overlay, err := renameOverlay(pkgs, fset, ren); err == nil {
 				fset2 := token.NewFileSet()
-				cfg2 := &packages.Config{Mode: cfg.Mode, Dir: abs, Fset: fset2, Env: cleanEnv(), Overlay: overlay}
+				cfg2 := &packages.Config{Mode: cfg.Mode, Dir: abs, Fset: fset2, Env: cleanEnv(), Overlay: overlay, BuildFlags: cfg.BuildFlags}
 				if pkgs2, err := packages.Load(cfg2, "./..."); err == nil && len(pkgs2) == len(pkgs) && check(pkgs2, false) {
 					pkgs, fset, renamed = pkgs2, fset2, notes
 				}
